@@ -33,7 +33,7 @@ class ProgCheck(Check):
         if fl.startswith("par"):
             args.update({"W": rng.choice(self.par_W), "stay": rng.choice([0, 30, 60, 85, 95]), "own": rng.choice([30, 70, 95]),
                          "seed": rng.randrange(1, 1 << 30), "thr": rng.choice(cfg.get("thr", [64]))})
-        return {"flavour": fl, "kind": "prog", "args": args, "timeout": cfg.get("timeout", 120), "arm": name}
+        return {"flavour": fl, "kind": cfg.get("kind", "prog"), "args": args, "timeout": cfg.get("timeout", 120), "arm": name}
 
     def viol_key(self, v):
         key = parse_clause(v["clause"])
@@ -43,8 +43,16 @@ class ProgCheck(Check):
     def crash_key(self, j, r):
         cls = simdrv.classify_crash(r)
         key = {"clause": "crash_" + cls}
-        if cls in ("asan", "ubsan") or cls.startswith("signal"):
+        if cls in ("asan", "ubsan"):
             key["site"] = simdrv.asan_site(r.get("stderr", ""))
+        elif cls.startswith("signal") and j is not None and not j["flavour"].endswith("asan"):
+            # a plain build only says "signal 11": run the same job once under ASan+UBSan to learn where
+            fl = "par-asan" if j["flavour"].startswith("par") else "ser-asan"
+            r2 = self.pool.run_one({"flavour": fl, "kind": j.get("kind", "prog"), "args": j["args"], "timeout": 300})
+            if not r2["ok"] and simdrv.classify_crash(r2) in ("asan", "ubsan"):
+                key = {"clause": "crash_" + simdrv.classify_crash(r2), "site": simdrv.asan_site(r2.get("stderr", ""))}
+            else:
+                key["site"] = "unknown"
         return key
 
     def explore(self):
@@ -70,7 +78,7 @@ class ProgCheck(Check):
                         stats["timeouts"] += 1
                     key = self.crash_key(j, r)
                     self.add_finding(key, "worker died running program [%s] in %s: %s" % (j["args"]["prog"][:300], j["flavour"], simdrv.crash_summary(r)),
-                                     {"property": self.prop, "flavour": j["flavour"], "args": j["args"], "crash": True})
+                                     {"property": self.prop, "flavour": j["flavour"], "kind": j["kind"], "args": j["args"], "crash": True})
                     continue
                 x = r["res"]
                 self.cov["evaluations"] += 1
@@ -97,7 +105,7 @@ class ProgCheck(Check):
                     stats["violations_raw"] += 1
                     key = self.viol_key(v)
                     desc = "program [%s] (%s) step %d (%s): %s" % (j["args"]["prog"][:400], j["flavour"], v["step"], v["op"], v["clause"])
-                    self.add_finding(key, desc, {"property": self.prop, "flavour": j["flavour"], "args": j["args"], "step": v["step"]})
+                    self.add_finding(key, desc, {"property": self.prop, "flavour": j["flavour"], "kind": j["kind"], "args": j["args"], "step": v["step"]})
                 if len(samples) < 6 and x["objects"] >= 3 and rng.random() < 0.05:
                     samples.append({"arm": j["arm"], "flavour": j["flavour"], "program": j["args"]["prog"][:400], "objects": x["objects"],
                                     "decisions": sim["steps"], "steals": sim["steals"]})
@@ -113,9 +121,9 @@ class ProgCheck(Check):
         pass
 
     def reproduce(self, replay, fresh=False):
-        r = self.run_job({"flavour": replay["flavour"], "kind": "prog", "args": replay["args"], "timeout": replay.get("timeout", 120)}, fresh)
+        r = self.run_job({"flavour": replay["flavour"], "kind": replay.get("kind", "prog"), "args": replay["args"], "timeout": replay.get("timeout", 120)}, fresh)
         if not r["ok"]:
-            return self.crash_key(None, r), "crash"
+            return self.crash_key({"flavour": replay["flavour"], "kind": replay.get("kind", "prog"), "args": replay["args"]}, r), "crash"
         exp = replay.get("expect")
         keys = []
         for v in r["res"]["viol"]:
